@@ -28,9 +28,13 @@ def profile_for(prop, base):
 
 
 def plan(prop, tier, seed_value, quick, thorough, extra=None):
-    per = (thorough if tier == 'thorough' else quick) // SHARDS
+    # Hypothesis slows down as one run's example count grows (it keeps a
+    # tree of what it has generated): the thorough tier is cut into more,
+    # smaller runs, which also balances the cores better.
+    shards = 4 * SHARDS if tier == 'thorough' else SHARDS
+    per = (thorough if tier == 'thorough' else quick) // shards
     specs = []
-    for k in range(SHARDS):
+    for k in range(shards):
         spec = {'seed': seed_value * 1000 + k, 'examples': per}
         spec.update(extra or {})
         specs.append(spec)
